@@ -151,6 +151,52 @@ func c10History(c *rt.Ctx, fsType string, h int) {
 			c.Rep.Count("rename_onto_itself_skipped", 1)
 			continue
 		}
+		if fsType == "MemFS" && r.IntN(12) == 0 {
+			// Sub through the wrapper: the view it returns is rooted inside B too
+			dir := hostile[r.IntN(len(hostile))]
+			if r.IntN(2) == 0 {
+				dir = g.Path()
+			}
+			va, ea := bp.Sub(dir)
+			vb, eb := ref.Sub(dir)
+			hist = append(hist, fmt.Sprintf("Sub(%q) -> %v", dir, ea))
+			c.Rep.Case(fmt.Sprintf("%s|Sub|%v", fsType, ea == nil), true)
+			if (ea == nil) != (eb == nil) {
+				c.Disagree(fmt.Sprintf("%s|Sub|wrapper=%v|standalone=%v", fsType, ea == nil, eb == nil), fmt.Sprintf("BasePathFS(%s,%s): Sub(%q) returns %v but %v on a standalone file system", fsType, B, dir, ea, eb), replay())
+				return
+			}
+			if ea != nil {
+				continue
+			}
+			// a view starts with the current directory string of its parent, whatever it means inside the view: the probes
+			// start from its root
+			_ = va.Chdir("/")
+			_ = vb.Chdir("/")
+			ea2, eb2 := fsx.NewEnv(va), fsx.NewEnv(vb)
+			for pi, po := range []fsx.Op{{K: "ReadDir", P: "/"}, {K: "ReadDir", P: "."}, {K: "ReadFile", P: "/" + c10Canary}, {K: "ReadFile", P: "/../" + c10Canary}, {K: "ReadFile", P: "../../" + c10Canary},
+				{K: "ReadFile", P: "/w/b"}, {K: "ReadFile", P: "b"}, {K: "Stat", P: "/.."}, {K: "WriteFile", P: "/sub-probe", Data: "p", Perm: 0o644}, {K: "Remove", P: "/sub-probe"}, {K: "ReadDir", P: "/.."}} {
+				x, y := ea2.Exec(po), eb2.Exec(po)
+				hist = append(hist, fmt.Sprintf("  view: %s -> %s", po, x))
+				if fatalRes(x) || fatalRes(y) {
+					return
+				}
+				for _, txt := range []string{x.Val, x.Raw} {
+					if strings.Contains(txt, c10Canary+"-bytes") || (!namesInside && strings.Contains(txt, c10Canary) && !strings.Contains(po.P, c10Canary)) {
+						c.Disagree(fmt.Sprintf("%s|Sub|reads-outside", fsType), fmt.Sprintf("BasePathFS(%s,%s): through the view returned by Sub(%q), %s returns %q: content or names that exist only outside the base directory", fsType, B, dir, po, txt), replay())
+						return
+					}
+				}
+				if !x.Same(y) {
+					c.Disagree(fmt.Sprintf("%s|Sub|probe%d|wrapper=%s|standalone=%s", fsType, pi, x.Err, y.Err), fmt.Sprintf("BasePathFS(%s,%s): through the view returned by Sub(%q), %s returns %s but %s on a standalone file system", fsType, B, dir, po, x, y), replay())
+					return
+				}
+				if now := outside(); now != before {
+					c.Disagree(fmt.Sprintf("%s|Sub|outside-changed", fsType), fmt.Sprintf("BasePathFS(%s,%s): through the view returned by Sub(%q), %s changed the base file system outside the base directory: %v", fsType, B, dir, po, diffText(before, now)), replay())
+					return
+				}
+			}
+			continue
+		}
 		a := env.Exec(o)
 		b := renv.Exec(o)
 		hist = append(hist, o.String()+" -> "+a.String())
@@ -246,7 +292,7 @@ func init() {
 		Shards: shards(8, 16),
 		Meta: func(tier string) rt.Meta {
 			return rt.Meta{Level: "exploration", MinEvals: 2000, MinDistinct: 20,
-				Rule:        "bases MemFS/OrefaFS with a base directory B (/BASE, /BASE/sub, /x/BASE) holding a random tree, canary files and directories outside B (among them a sibling directory whose name extends B's as a string and holds the workload's names; the current directory of the base is moved there and elsewhere outside B from the base side); histories of 100 calls (all path-taking calls and File methods; absolute, relative, unclean paths; one call in four gets an adversarial operand: '..'-chains, B's own prefix, canary names) issued in lockstep on BasePathFS(base,B) and on a standalone file system holding B's content. Monitors: snapshot (incl. mtimes) of everything outside B before/after every call; canary/base-path search in every returned value and error text; outcome, content of B and cwd equal to the standalone reference. Signature = base fs | call kind | outcome; all non-trivial.",
+				Rule:        "bases MemFS/OrefaFS with a base directory B (/BASE, /BASE/sub, /x/BASE) holding a random tree, canary files and directories outside B (among them a sibling directory whose name extends B's as a string and holds the workload's names; the current directory of the base is moved there and elsewhere outside B from the base side); histories of 100 calls (all path-taking calls and File methods; absolute, relative, unclean paths; one call in four gets an adversarial operand: '..'-chains, B's own prefix, canary names) plus Sub through the wrapper with hostile directories and probes through the returned view) issued in lockstep on BasePathFS(base,B) and on a standalone file system holding B's content. Monitors: snapshot (incl. mtimes) of everything outside B before/after every call; canary/base-path search in every returned value and error text; outcome, content of B and cwd equal to the standalone reference. Signature = base fs | call kind | outcome; all non-trivial.",
 				Assumptions: []string{"B's content is symlink-free (BasePathFS removes FeatSymlink)", "File.Name and Abs are checked for leaks only", "the root as operand of Remove/RemoveAll/Rename is left to C07"}}
 		},
 		Run: func(c *rt.Ctx) {
